@@ -282,3 +282,53 @@ Definition ex_r4 : slice := of_bytes [137;0;0;0; 2;4;0;30; 10;0;0;1; 0;0;0;1; 1;
 Example R4_valid_ex : wf ex_r4 /\ bytes_ok (arr ex_r4) /\ R4_IsValid ex_r4 = Ok true /\
   R4_Addrs ex_r4 = Ok (VL [VR 8 4; VR 24 4]).
 Proof. repeat split; first [ apply bytes_okb_spec; vm_compute; reflexivity | vm_compute; reflexivity | vm_compute; lia ]. Qed.
+
+(* ---- round 7: LLDP.GetPDU(t), the TLV accessor with an argument: safe and inside for every requested type ---- *)
+Lemma lldp_get_pdu_ok v ty : wf v -> bytes_ok (arr v) -> forall fuel pos, (len v - pos < fuel)%nat -> (0 < fuel)%nat ->
+  exists x, lldp_get_pdu fuel v ty pos = Ok x /\ Forall (range_in v) (ranges x).
+Proof.
+  intros W B. induction fuel as [|f IH]; intros pos Hf H0; [lia|].
+  cbn [lldp_get_pdu]. destruct (lldp_getTLV_spec v pos W B) as (x & E & _ & _ & Herr & Hin). rewrite E. cbn [bind].
+  destruct (tlv_err x) eqn:Ee; [exists VNil; split; [reflexivity|constructor]|].
+  destruct ((tlv_t x =? ty) || (tlv_t x =? 0))%bool; [exists (tlv_value x); split; [reflexivity|exact Hin]|].
+  specialize (Herr eq_refl). apply IH; lia.
+Qed.
+
+Lemma LLDP_GetPDU_safe ty v : wf v -> bytes_ok (arr v) -> getter_ok v (LLDP_GetPDU ty).
+Proof.
+  intros W B. unfold getter_ok, LLDP_GetPDU. destruct (lldp_get_pdu_ok v ty W B (S (len v)) 0) as (x & E & I); try lia.
+  rewrite E. split; [apply safe_Ok|exact I].
+Qed.
+
+(* GetPDU of the type of the first TLV is ChassisID's value *)
+Lemma LLDP_GetPDU_first v : wf v -> bytes_ok (arr v) -> (2 < len v)%nat ->
+  forall x, lldp_getTLV v 0 = Ok x -> tlv_err x = false -> LLDP_GetPDU (tlv_t x) v = LLDP_ChassisID v.
+Proof.
+  intros W B H x E Ee. unfold LLDP_GetPDU, LLDP_ChassisID. cbn [lldp_get_pdu]. rewrite E. cbn [bind]. rewrite Ee.
+  rewrite N.eqb_refl. reflexivity.
+Qed.
+
+Example LLDP_GetPDU_ex : LLDP_GetPDU 3 ex_lldp = Ok (VR 16 2) /\ LLDP_GetPDU 9 ex_lldp = Ok VNil /\ LLDP_GetPDU 2 ex_lldp = Ok (VR 11 3).
+Proof. repeat split; vm_compute; reflexivity. Qed.
+
+(* ---- round 7: the API census lists (Model/ViewsDispatch.vt_api) are consistent with the getter tables:
+   the zero-argument entries are IsValid and exactly the getter names, in the same order ---- *)
+From PV Require Import Model.ViewsDispatch.
+Definition zero_arity (s : string) : option string :=
+  let n := String.length s in
+  if String.eqb (substring (n - 2) 2 s) "/0" then Some (substring 0 (n - 2) s) else None.
+Fixpoint zero_names (l : list string) : list string :=
+  match l with
+  | [] => []
+  | s :: r => match zero_arity s with
+              | Some n => if String.eqb n "IsValid" then zero_names r else n :: zero_names r
+              | None => zero_names r
+              end
+  end.
+Fixpoint list_eqb (a b : list string) : bool :=
+  match a, b with [], [] => true | x :: a', y :: b' => String.eqb x y && list_eqb a' b' | _, _ => false end.
+Definition api_ok (t : vtype) : bool :=
+  list_eqb (zero_names (vt_api t)) (map fst (vt_getters t)) && existsb (String.eqb "IsValid/0") (vt_api t) &&
+  list_eqb (map fst (vt_getters t)) (map fst (vt_specs t)).
+Example api_consistent : forallb api_ok vtypes = true.
+Proof. vm_compute. reflexivity. Qed.
